@@ -5,8 +5,10 @@ props_sorted / props_last_wins (coq/C16/Properties.v); correspondence = extracte
 rkcommon::xml::readXML (ASan+UBSan, 3 s watchdog per file) on the same files.  The rendered
 documents are produced by the extracted Coq function Render.render_doc from laid-out documents
 inside Render.wf_doc (= the premise of parse_render) and compared with the extracted Render.doc_of."""
-import ast, json, os, sys
+import ast, json, os, re, sys
 import vlib
+sys.path.insert(0, os.path.dirname(os.path.abspath(__file__)))
+import factgen  # noqa: E402
 
 REPO_SRC = ["rkcommon/xml/XML.cpp", "rkcommon/os/FileName.cpp"]
 
@@ -339,9 +341,57 @@ def asan_summary(err):
     return err.strip()[-200:]
 
 
+FACT_THMS = ("facts_isWhite_bytes", "facts_expect1", "facts_expect2", "facts_consume", "facts_skipWhites", "facts_parseString",
+             "facts_parseIdentifier", "facts_parseProp", "facts_consumeComment", "facts_skipComment", "facts_parseHeader",
+             "facts_makeString", "facts_parseNode", "facts_parseXML", "facts_consume_word", "facts_readXML_buffer")
+
+
+def source_facts(ctx):
+    """regenerate coq/C16/gen/Facts.v from the working tree (clang AST of rkcommon/xml/XML.cpp)"""
+    gen_v = os.path.join(ctx.coqdir, "gen", "Facts.v")
+    js = os.path.join(ctx.build, "facts.json")
+    ctx.include_dir()
+    try:
+        notes = factgen.main(["--repo", ctx.repo, "--out", gen_v, "--json", js, "--work", os.path.join(ctx.build, "ast")])
+    except Exception as ex:                                   # fail closed: everything unknown
+        notes = ["fact extraction failed: %r" % (ex,)]
+        os.makedirs(os.path.dirname(gen_v), exist_ok=True)
+        open(gen_v, "w").write(factgen.coq_text({}, notes))
+    ctx.cov["source_facts_notes"] = notes[:10]
+    return notes
+
+
+def first_failing_fact(ctx):
+    """name of the theorem of PropertiesFacts.v at which the Coq build stopped"""
+    m = re.search(r'File "\./PropertiesFacts\.v", line (\d+)', getattr(ctx, "coq_log", "") or "")
+    if not m:
+        m2 = re.search(r'File "\./(gen/Facts|FactsCheck|FactsDefs)\.v", line (\d+)', getattr(ctx, "coq_log", "") or "")
+        return ("(%s.v does not compile)" % m2.group(1)) if m2 else None
+    line = int(m.group(1))
+    name = None
+    for n, ln in enumerate(open(os.path.join(ctx.coqdir, "PropertiesFacts.v")), 1):
+        mm = re.match(r"\s*Theorem\s+(\w+)", ln)
+        if mm:
+            name = mm.group(1)
+        if n >= line:
+            break
+    return name
+
+
 def run(ctx):
     sys.setrecursionlimit(10000)
-    ctx.coq_check(("Properties.v",))
+    notes = source_facts(ctx)
+    res = ctx.coq_check(("Properties.v", "PropertiesFacts.v"))
+    bad_facts = [t for t in FACT_THMS if not res.get(t)]
+    ctx.cov["source_obligations"] = len(FACT_THMS)
+    ctx.cov["source_obligations_broken"] = bad_facts
+    if bad_facts:
+        first = first_failing_fact(ctx)
+        ctx.cov["first_failing_source_obligation"] = first
+        ctx.broken.insert(0, "source-derived obligation broken: first failing lemma %s of coq/C16/PropertiesFacts.v (the body of that "
+                             "function in rkcommon/xml/XML.cpp no longer is the program whose meaning was proved equal to Model.v); "
+                             "extractor notes: %s" % (first, "; ".join(notes[:4]) or "none"))
+        ctx.log("source-derived obligation broken, first failing lemma: %s; notes: %s" % (first, notes[:4]))
     model = ctx.extract(snippets=["conv_N.ml"])
     exe = ctx.cxx(["harness.cpp"], "harness", repo_sources=REPO_SRC, sanitize="asan")
     if not model or not exe:
@@ -522,10 +572,14 @@ def run(ctx):
         for i in smallest(mism)[:3]:
             ctx.broken.append("correspondence C16 model vs readXML on %r: impl=%s model=%s (both outcomes allowed by the property)"
                               % (cases[i][1], ilines[i][:160], mlines[i][:160]))
-    ctx.trusted += ["correspondence harness harness/C16/harness.cpp + generators/oracle in props/C16/check.py (g++ -O1, ASan+UBSan)",
+    ctx.trusted += ["fact extractor props/C16/factgen.py + tools/sxast/sxast.py over `clang++ -std=c++11 -fsyntax-only -Xclang -ast-dump=json` of the "
+                    "working tree's rkcommon/xml/XML.cpp (function bodies -> cursor programs coq/C16/gen/Facts.v; the meaning of the cursor "
+                    "language is coq/C16/FactsDefs.v, calls of other static functions mean the Model.v functions, libc isalpha/isdigit/isspace "
+                    "mean the C-locale classes of Model.v)",
+                    "correspondence harness harness/C16/harness.cpp + generators/oracle in props/C16/check.py (g++ -O1, ASan+UBSan)",
                     "modelled, not verified: fopen/ftell/fread (file -> NUL-terminated buffer), std::string/std::map/std::vector, "
                     "isalpha/isdigit/isspace of the C locale, native stack depth of the parseNode recursion"]
     ctx.assumptions += ["the file is a regular file that fits in memory; nesting depth small enough for the native stack",
                         "C locale character classes; bytes >= 128 belong to no class"]
     if ctx.thorough():
-        ctx.coq_thorough_chk(["C16.Properties"])
+        ctx.coq_thorough_chk(["C16.Properties", "C16.PropertiesFacts"])
